@@ -278,14 +278,3 @@ Section RemoveInternal.
         * rewrite N1 in * by auto. apply Eq2; auto.
   Qed.
 End RemoveInternal.
-(*
-      + apply V2 in H. destruct H as [H _]. rewrite V1 in H. apply in_without in H; tauto.
-      + apply V2 in H. destruct H as [H H']. rewrite V1 in H. apply in_without in H.
-        intros [<-|Hc]; tauto.
-      + intros [Hx Hn]. apply V2. split; [|tauto]. rewrite V1. apply in_without. split; auto.
-      + intros Hl. destruct (mget N.eqb h (vmap s)) eqn:G.
-        * rewrite <- L1 in Hl by discriminate. lia.
-        * rewrite N1 in * by auto. apply Eq2; auto.
-  Qed.
-End RemoveInternal.
-*)
